@@ -518,6 +518,33 @@ func run(r *mon.Run) {
 				}
 			}
 		}
+		// paths that reach the files through a symbolic link followed by "..": the kernel resolves the link first, a
+		// lexical clean-up of the path ends up somewhere else (where a decoy lies)
+		if i%2 == 0 {
+			base := filepath.Join(scratch, fmt.Sprintf("sl-%d-%d", r.Shard, i))
+			os.MkdirAll(filepath.Join(base, "other", "sub"), 0o755)
+			os.MkdirAll(filepath.Join(base, "a"), 0o755)
+			decoy := bundleFile(g, size, nil)
+			os.WriteFile(filepath.Join(base, "other", "in.wbn"), orig, 0o644)
+			os.WriteFile(filepath.Join(base, "a", "in.wbn"), decoy, 0o644)
+			if err := os.Symlink(filepath.Join("..", "other", "sub"), filepath.Join(base, "a", "link")); err == nil {
+				inL := filepath.Join(base, "a", "link") + "/../in.wbn"
+				outL := filepath.Join(base, "a", "link") + "/../out.wbn"
+				o5, err5 := exec.Command(cli, "integrity-block", "-i", inL, "-o", outL, "-privateKey", keyPath).CombinedOutput()
+				got5, rerr5 := os.ReadFile(filepath.Join(base, "other", "out.wbn"))
+				switch {
+				case err5 != nil:
+					outcome = "cli:SYMLINK-PATH-FAILED"
+					r.Violation(key+":symlink-exit", fmt.Sprintf("sign-bundle integrity-block -i a/link/../in.wbn -o a/link/../out.wbn failed although both paths resolve: %v: %s", err5, tailStr(string(o5), 200)), nil)
+				case rerr5 != nil:
+					outcome = "cli:SYMLINK-OUTPUT-MISSING"
+					r.Violation(key+":symlink-out", "sign-bundle exited 0 but there is no output where the -o path (through a symbolic link and ..) leads", nil)
+				default:
+					audit(r, key+":symlink", "cli-symlink", got5, orig, []ed25519.PublicKey{pub}, fmt.Sprintf("size=%d -i/-o through link/..", size))
+				}
+			}
+			os.RemoveAll(base)
+		}
 		// an output that cannot take a single byte (disk full): the tool must not claim to have signed the bundle
 		if _, serr := os.Stat("/dev/full"); serr == nil {
 			// (this bundle and, separately, a small one: output that fits a write buffer fails only when it is flushed)
